@@ -261,6 +261,11 @@ def build_fixture(fxspec):
         _git(r, "tag", "-a", "-m", "annotated", "v1")
         if rng.random() < 0.5:
             _git(r, "tag", "-a", "-m", "tree tag", "treetag", "HEAD^{tree}")
+        if fxspec.get("oddrefs", rng.random() < 0.5):
+            # references whose value is a tree or a blob id (legal, rare): lightweight tags of a tree and of a blob
+            _git(r, "tag", "tree-light", "HEAD^{tree}")
+            blob = _git(r, "rev-parse", "HEAD:README").strip().decode()
+            _git(r, "tag", "blob-light", blob)
         if fxspec.get("symrefs", rng.random() < 0.5):
             # symbolic references besides HEAD, as a non-mirror clone leaves them
             _git(r, "symbolic-ref", "refs/remotes/origin/HEAD", "refs/heads/feature/x")
@@ -587,6 +592,7 @@ def gen(rng, tier):
         fx = {"seed": rng.randrange(1, 10 ** 9)}
         fx["url_noauth"] = s % 2         # a URL without / with an empty authority (file:///x, lp:x, mailto:x)
         fx["symrefs"] = (s + 1) % 2      # the git repository has symbolic references besides HEAD
+        fx["oddrefs"] = s % 2            # ... and references to a tree / a blob
         if s % 2 == 1:
             fx["nonutf8"] = 1            # names inside the trees and link texts that are not valid UTF-8
             fx["nonutf8_arg"] = 1        # ... and the names of the arguments themselves
@@ -690,3 +696,68 @@ ANCHORS = [('swh/model/cli.py', 'identify'),
            ('swh/model/cli.py', 'identify_object'),
            ('swh/model/cli.py', 'swhid_of_*'),
            ('swh/model/cli.py', 'model_of_dir')]
+
+
+# the decision table is small and cheap: coq_cases gets every case and evaluates every distinct configuration of the stream
+# (it shrinks the list it is given IN PLACE: the evidence's `n` is the number of rows evaluated)
+COQ_SAMPLE = 1 << 30
+
+
+def coq_cases(cases):
+    """every row of the decision table (in_scope, in_scope_literal, designated, identify_model, spec, spec_strict and the four
+    pre-repair variants) evaluated by vm_compute inside Coq vs the extracted driver; each outcome is a few small numbers
+    (constructor indices), one checksum per row"""
+    from . import core
+    seen = {}
+    for c in cases:
+        seen.setdefault(tuple(c["cfg"]), c)
+    cases[:] = list(seen.values())
+    reqs = [cfg_req(c["cfg"]) for c in cases]
+    KIND = {"file": "AFile", "dir": "ADir", "linkfile": "ALinkFile", "linkdir": "ALinkDir", "stdin": "AStdin", "url": "AUrl",
+            "gitrepo": "AGitRepo"}
+    TYPE = {"auto": "TAuto", "content": "TContent", "directory": "TDirectory", "origin": "TOrigin", "snapshot": "TSnapshot"}
+    VER = {"none": "VNone", "match": "VMatch", "nonmatch": "VNonMatch"}
+    B = {"1": "true", "0": "false"}
+    OBJ = ["pathcontent", "linktext", "targetfile", "empty", "stdin", "dirpath", "dirtarget", "origin", "snapshot"]
+    CRASH = ["TypeError", "NotADirectoryError", "FileNotFoundError", "NotGitRepository"]
+    def term(rq):
+        _, k, t, d, f, r, v, x = rq.split(" ")
+        return "mkCfg %s %s %s %s %s %s %s" % (KIND[k], TYPE[t], B[d], B[f], B[r], VER[v], B[x])
+    src = ("From Coq Require Import List NArith.\nFrom SWH.model Require Import Cli.\nImport ListNotations.\n" + core.COQ_CHECKSUM + """
+Definition b (x : bool) : N := if x then 1%N else 0%N.
+Definition objn (o : obj) : N :=
+  match o with
+  | OPathContent => 0 | OLinkText => 1 | OTargetFile => 2 | OEmptyContent => 3 | OStdin => 4 | ODirAtPath => 5
+  | ODirAtLinkTarget => 6 | OOrigin => 7 | OSnapshot => 8
+  end%N.
+Definition crashn (c : crash) : N :=
+  match c with CrTypeError => 0 | CrNotADirectory => 1 | CrFileNotFound => 2 | CrNotGitRepository => 3 end%N.
+Definition outc (o : outcome) : list N :=
+  match o with
+  | Print o e s l => [1%N; objn o; b e; b s; b l]
+  | Usage => [2%N] | Exit0 => [3%N] | Exit1 => [4%N]
+  | Crash c => [5%N; crashn c]
+  end.
+Definition row (c : cfg) : list N :=
+  let (o, e) := designated c in
+  [b (in_scope c); b (in_scope_literal c); objn o; b e]
+  ++ outc (identify_model c) ++ outc (spec c) ++ outc (spec_strict c)
+  ++ outc (identify_old_realpath c) ++ outc (identify_old_rectype c) ++ outc (identify_old_autolink c)
+  ++ outc (identify_old_recfollows c).
+""" + "Definition cases : list cfg := [" + ";\n ".join(term(rq) for rq in reqs) + "].\nEval vm_compute in map (fun c => cksum (row c)) cases.\n")
+    def outc(s):
+        p = s.split(",")
+        if p[0] == "print":
+            return [1, OBJ.index(p[1]), int(p[2]), int(p[3]), int(p[4])]
+        if p[0] == "crash":
+            return [5, CRASH.index(p[1])]
+        return [{"usage": 2, "exit0": 3, "exit1": 4}[p[0]]]
+    def row(line):
+        r = parse_row(line)
+        o, e = r["des"].split(",")
+        out = [int(r["inscope"]), int(r["literal"]), OBJ.index(o), int(e)]
+        for k in ("model", "spec", "strict", "old1", "old2", "old3", "old4"):
+            out += outc(r[k])
+        return out
+    exp = [core.py_cksum(row(r)) for r in core.run_driver(ID, reqs)]
+    return src, exp
